@@ -1,0 +1,84 @@
+//go:build verif
+
+// Contracts for package tenant, checked by /verif/govc (comment-only file).
+
+package tenant
+
+//@ pred safeChar(c int) = ('a' <= c && c <= 'z') || ('A' <= c && c <= 'Z') || ('0' <= c && c <= '9') ||
+//@        c == '!' || c == '-' || c == '_' || c == '.' || c == '*' || c == 39 || c == '(' || c == ')'
+//@ pred tableOK() = len(validTenantIdChars) == 256 && (forall c int :: 0 <= c && c < 256 ==> (validTenantIdChars[c] <==> safeChar(c)))
+//@
+//@ immutable validTenantIdChars property C20
+//@
+//@ func init@tenant.go
+//@   property C20
+//@   ensures table: len(validTenantIdChars) == 256 && (forall c int :: 0 <= c && c < 256 ==> (validTenantIdChars[c] <==> safeChar(c)))
+//@   loop 0 invariant 'a' <= c && c <= 'z' + 1 && len(validTenantIdChars) == 256
+//@   loop 0 invariant forall d int :: 0 <= d && d < 256 ==> (validTenantIdChars[d] <==> ('a' <= d && d < c))
+//@   loop 1 invariant 'A' <= c && c <= 'Z' + 1 && len(validTenantIdChars) == 256
+//@   loop 1 invariant forall d int :: 0 <= d && d < 256 ==> (validTenantIdChars[d] <==> (('a' <= d && d <= 'z') || ('A' <= d && d < c)))
+//@   loop 2 invariant '0' <= c && c <= '9' + 1 && len(validTenantIdChars) == 256
+//@   loop 2 invariant forall d int :: 0 <= d && d < 256 ==> (validTenantIdChars[d] <==> (('a' <= d && d <= 'z') || ('A' <= d && d <= 'Z') || ('0' <= d && d < c)))
+//@   loop 3 invariant len(validTenantIdChars) == 256
+//@   loop 3 invariant forall d int :: 0 <= d && d < 256 ==> (validTenantIdChars[d] <==> (('a' <= d && d <= 'z') || ('A' <= d && d <= 'Z') || ('0' <= d && d <= '9') ||
+//@                        (exists e int :: 0 <= e && e < $i && $coll[e] == d)))
+//@
+//@ lemma safeCharExcludesSeparators(c int)
+//@   property C20
+//@   ensures safeChar(c) ==> c != '|' && c != ':' && c != '/' && c != 92 && c != 0 && c != '=' && c < 128
+//@
+//@ func ValidTenantID
+//@   property C20
+//@   requires tableOK()
+//@   ensures  accept: result == nil <==> ((forall i int :: 0 <= i && i < len(s) ==> safeChar(s[i])) && len(s) <= 150 && s != "." && s != "..")
+//@   loop 0 invariant 0 <= i && i <= len(s) && (forall j int :: 0 <= j && j < i ==> safeChar(s[j]))
+//@   pure
+//@
+//@ func TrimMetadata
+//@   property C20
+//@   ensures  nosep: (forall i int :: 0 <= i && i < len(orgID) ==> orgID[i] != ':') ==> result == orgID
+//@   ensures  cut: (exists i int :: 0 <= i && i < len(orgID) && orgID[i] == ':') ==>
+//@              (exists n int :: 0 <= n && n < len(orgID) && orgID[n] == ':' && (forall j int :: 0 <= j && j < n ==> orgID[j] != ':') && result == orgID[0:n])
+//@   ensures  pre: len(result) <= len(orgID) && (forall j int :: 0 <= j && j < len(result) ==> result[j] == orgID[j] && result[j] != ':')
+//@
+//@ func stringsCut
+//@   property C20
+//@   ensures  none: (forall i int :: 0 <= i && i < len(s) ==> s[i] != sep) ==> r0 == s && r1 == "" && !r2
+//@   ensures  some: (exists i int :: 0 <= i && i < len(s) && s[i] == sep) ==> r2 &&
+//@              (exists n int :: 0 <= n && n < len(s) && s[n] == sep && (forall j int :: 0 <= j && j < n ==> s[j] != sep) && r0 == s[0:n] && r1 == s[n+1:len(s)])
+//@   ensures  before: forall j int :: 0 <= j && j < len(r0) ==> r0[j] != sep
+//@
+//@ func NormalizeTenantIDs
+//@   property C20
+//@   modifies tenantIDs
+//@   ensures  sorted: forall i, j int :: 0 <= i && i < j && j < len(result) ==> result[i] < result[j]
+//@   ensures  sub: forall i int :: 0 <= i && i < len(result) ==> (exists j int :: 0 <= j && j < len(old(tenantIDs)) && old(tenantIDs)[j] == result[i])
+//@   ensures  sup: forall j int :: 0 <= j && j < len(old(tenantIDs)) ==> (exists i int :: 0 <= i && i < len(result) && old(tenantIDs)[j] == result[i])
+//@   at exit: assert len(srt) > 1 ==> (forall b int :: 0 <= b && b < len(srt) ==> 0 <= w[b] && w[b] < len(r0) && r0[w[b]] == srt[b])
+//@   ghost var srt []string = tenantIDs
+//@   ghost var w total[int]int = havoc
+//@   at after@sort.Strings: srt := tenantIDs
+//@   loop 0 invariant 1 <= posOut && posOut <= posIn && posIn <= count && count == len(tenantIDs) && count == len(srt)
+//@   loop 0 invariant forall j int :: posOut <= j && j < count ==> tenantIDs[j] == srt[j]
+//@   loop 0 invariant tenantIDs[posOut-1] == srt[posIn-1]
+//@   loop 0 invariant forall a, b int :: 0 <= a && a < b && b < posOut ==> tenantIDs[a] < tenantIDs[b]
+//@   loop 0 invariant forall a int :: 0 <= a && a < posOut ==> (exists b int :: 0 <= b && b < posIn && srt[b] == tenantIDs[a])
+//@   loop 0 invariant forall b int :: 0 <= b && b < posIn ==> 0 <= w[b] && w[b] < posOut && tenantIDs[w[b]] == srt[b]
+//@   loop 0 init w := store(w, 0, 0)
+//@   loop 0 end w := store(w, posIn-1, posOut-1)
+//@
+//@ pred accepted(s string) = (forall i int :: 0 <= i && i < len(s) ==> safeChar(s[i])) && len(s) <= 150 && s != "." && s != ".."
+//@
+//@ func TenantID
+//@   property C20
+//@   requires tableOK()
+//@   ensures  valid: r1 == nil ==> accepted(r0)
+//@   ensures  nosep: r1 == nil ==> (forall i int :: 0 <= i && i < len(r0) ==> r0[i] != '|' && r0[i] != ':' && r0[i] != '/' && r0[i] != 92)
+//@
+//@ func parseTenantIDs
+//@   property C20
+//@   requires tableOK()
+//@   ensures  valid: r1 == nil ==> (forall i int :: 0 <= i && i < len(r0) ==> accepted(r0[i]))
+//@   ensures  sorted: r1 == nil ==> (forall i, j int :: 0 <= i && i < j && j < len(r0) ==> r0[i] < r0[j])
+//@   loop 0 invariant len(orgIDs) == len($coll) && (forall j int :: 0 <= j && j < $i ==> accepted(orgIDs[j]))
+//@   loop 0 invariant forall j int :: $i <= j && j < len(orgIDs) ==> orgIDs[j] == $coll[j]
